@@ -166,8 +166,8 @@ def ckey(k):
 
 def case_term(c, out):
     ops, plan, eps = compile_case(c)
-    if out is None or out.startswith("PANIC") or out.startswith("ABORT") or out == "HANG":
-        return None
+    if out is None or out.startswith("PANIC") or out.startswith("ABORT") or out.startswith("HANG") or "STUCK" in out:
+        return None   # reported as a violation with the scenario as replay
     outs = [x.strip() for x in out.split(" | ")]
     if len(outs) != len(ops):
         return None
